@@ -32,6 +32,7 @@ type w5env struct {
 	t, u               string // a table and an alias of it
 	two, id, bump      string // local functions: two values, identity on ..., side effect on ua
 	nested             bool
+	freshFn            bool // the rounds are the body of a function of the shape's own
 	va                 bool // `...` may be used here
 	k                  int  // counter for distinguishable constants
 }
@@ -59,8 +60,14 @@ func (g *Gen) w5reset(e *w5env) []Stmt {
 	out := []Stmt{}
 	// a varying number of unrelated locals first: the temporaries of the statement under test land
 	// on different registers
-	if n := g.R.Pick(50, 30, 15, 5); n > 0 {
-		cnt := []int{0, 1, 3, 40}[n] + g.R.Intn(3)
+	// (many of them only at the top of a function of the shape's own: the enclosing generated
+	// function may already be close to the compiler's limit of 200 locals)
+	big := 0
+	if e.freshFn {
+		big = 1
+	}
+	if n := g.R.Pick(50, 30, 13, 5*big, 2*big); n > 0 {
+		cnt := []int{0, 1, 3, 40, 150}[n] + g.R.Intn(3)
 		names := make([]string, cnt)
 		for i := range names {
 			names[i] = g.fresh("pd")
@@ -225,7 +232,29 @@ func (g *Gen) w5targets(e *w5env, n int) []Expr {
 // w5round: one statement under test with its reset and its observation.
 func (g *Gen) w5round(e *w5env) []Stmt {
 	out := g.w5reset(e)
-	switch g.R.Pick(50, 10, 10, 12, 10, 8) {
+	switch g.R.Pick(50, 10, 10, 12, 10, 8, 10) {
+	case 6:
+		// two operands that both need a temporary (the first one is alive while the second is
+		// evaluated): operators, comparisons, concatenation, table and key of an index
+		g.use("w5-operand-pairs")
+		nv := func() Expr {
+			la, lb := v(e.la), v(e.lb)
+			return []Expr{la, v(e.ua), v(e.ga), idx(v(e.t), "x"), &Paren{E: &Or{A: v(e.ln), B: lb}}, &Paren{E: &And{A: la, B: v(e.ub)}},
+				&Call{F: v(e.id), Args: []Expr{la}}, &Paren{E: &Call{F: v(e.two)}}, bin("+", la, num(1)), &Call{F: v(e.bump)},
+				&Paren{E: &Or{A: &And{A: v(e.lf), B: la}, B: &Call{F: v(e.two)}}}, e.konst()}[g.R.Intn(12)]
+		}
+		tv := func() Expr {
+			return []Expr{v(e.t), &Paren{E: &Or{A: v(e.lf), B: v(e.t)}}, &Call{F: v(e.id), Args: []Expr{v(e.u)}}, &Paren{E: &And{A: v(e.ls), B: v(e.u)}}}[g.R.Intn(4)]
+		}
+		kv := func() Expr {
+			return []Expr{str("x"), num(1), &Paren{E: &Or{A: v(e.ln), B: num(1)}}, &Paren{E: &And{A: v(e.la), B: str("x")}}, &Call{F: v(e.id), Args: []Expr{str("x")}},
+				bin("-", v(e.la), bin("-", v(e.la), num(1)))}[g.R.Intn(6)]
+		}
+		ar := []string{"+", "-", "*", "/", "%"}
+		cm := []string{"<", "<=", ">", ">=", "==", "~="}
+		out = append(out,
+			emit(bin(ar[g.R.Intn(5)], nv(), nv()), bin(cm[g.R.Intn(6)], nv(), nv()), bin("..", nv(), nv()), bin("..", nv(), bin("..", nv(), nv()))),
+			emit(&Index{E: tv(), K: kv()}, &Index{E: tv(), K: kv()}, bin(ar[g.R.Intn(3)], &Index{E: tv(), K: kv()}, nv()), &Un{Op: "-", A: nv()}, &Un{Op: "not", A: nv()}))
 	case 0:
 		g.use("w5-assign-matrix")
 		n := g.R.Range(2, 4)
@@ -297,6 +326,7 @@ func (g *Gen) valueListMatrix(d int) []Stmt {
 	g.use("w5-value-list-matrix")
 	e := g.w5newEnv()
 	e.nested = g.R.Chance(55)
+	e.freshFn = e.nested
 	out := g.w5outer(e)
 	rounds := g.R.Range(2, 3)
 	if e.nested {
@@ -522,6 +552,7 @@ func (g *Gen) w5coerce(e *w5env) []Stmt {
 func (g *Gen) forOperandMatrix(d int) []Stmt {
 	g.use("w5-for-matrix")
 	e := g.w5newEnv()
+	e.freshFn = g.R.Chance(50) // the operands kept in the enclosing function's locals are upvalues
 	out := g.w5outer(e)
 	inner := append(g.w5reset(e), []Stmt{}...)
 	for k, n := 0, g.R.Range(2, 3); k < n; k++ {
@@ -534,7 +565,7 @@ func (g *Gen) forOperandMatrix(d int) []Stmt {
 			inner = append(inner, g.w5coerce(e)...)
 		}
 	}
-	if g.R.Chance(50) { // the operands kept in the enclosing function's locals are upvalues
+	if e.freshFn {
 		out = append(out, &CallS{E: &Call{F: &Paren{E: &Func{Body: inner}}}})
 	} else {
 		out = append(out, &Do{Body: inner})
